@@ -409,6 +409,42 @@ def s_injected(vc):
     vc.ensure("source_buffer_reset", And(len(items_of(vc, src.frame_buf)) == 1, vc.eq(items_of(vc, src.frame_buf)[0], b"")))
 
 
+@scenario("relay.injected_during_fragmented_message", functions=[WL + ".relay_messages", WC + ".send2", FR + ".__call__", FR + ".msg"], extra_inline_roots=WSPROTO, max_unroll=5, z3_timeout_ms=3000)
+def s_injected_midway(vc):
+    """an addon injects a message for a side that has delivered the first frame(s) of a fragmented message but not the last one.
+    KF-C28-2: the injected message is assembled in the same frame_buf as the message in progress: it is recorded and delivered
+    with the pending fragments in front, and the message in progress loses them (the whole class is the finding)."""
+    from wsproto.frame_protocol import Opcode
+    from_client = vc.case("from_client", [True, False])
+    pending, content = vc.sym_bytes("pending"), vc.sym_bytes("content")
+    vc.assume(And(len_(pending) > 0, len_(content) > 0))
+    FS = vc.sym_int("fragment_size", lo=1)
+    vc.assume(len_(content) + len_(pending) <= FS)
+    buf = [pending, b""]
+    lay, flow, client, server, cws, sws = mk_ws_layer(vc, client_buf=buf if from_client else None, server_buf=None if from_client else buf)
+    src, dst = (cws, sws) if from_client else (sws, cws)
+    set_fragment_size(vc, FS)
+    received, sent = install_wsproto(vc, [])
+    msg = vc.new("mitmproxy.websocket:WebSocketMessage", type=Opcode.BINARY, from_client=from_client, content=content, timestamp=5.0, dropped=False, injected=True)
+    out = vc.call(WL + ".relay_messages", lay, vc.new(WSL + ":WebSocketMessageInjected", flow=flow, message=msg))
+    vc.ensure("no_exception", out.ok)
+    if not out.ok:
+        return
+    msgs = items_of(vc, flow.websocket.messages)
+    vc.ensure("recorded_once", len(msgs) == 1)
+    if len(msgs) != 1:
+        return
+    K = len_(pending) > 0
+    vc.ensure_kf("injected.recorded_content_is_the_injected_content", vc.eq(msgs[0].content, content), "KF-C28-2", K)
+    joined = b""
+    for _, e in sent:
+        joined = joined + ev_fields(vc, e)[1]
+    vc.ensure_kf("injected.delivered_content_is_the_injected_content", vc.eq(joined, content), "KF-C28-2", K)
+    fb = items_of(vc, src.frame_buf)
+    vc.ensure_kf("message_in_progress_keeps_its_fragments", And(len(fb) == 2, vc.eq(fb[0], pending) if len(fb) == 2 else False), "KF-C28-2", K)
+    vc.ensure("delivered_to_the_other_peer_only", all(w is dst for w, _ in sent))
+
+
 # =============================================================================================
 # T2 (bounded): real WebsocketLayer between two real wsproto peers (in memory), FRAGMENT_SIZE patched to 4
 
@@ -635,6 +671,35 @@ def bounded(tier, seed):
             if d.hook_names().count("websocket_end") != 1 or flow.live:
                 b.fail("ws.ends_once", inp, str(d.hook_names()))
             b.case((deflate, seq, inject), nontrivial=inject is not None or any(p not in ("keep",) for p in pols))
+        # injection while the same side is in the middle of a fragmented message
+        for from_client in (True, False):
+            for kind in ("t", "b"):
+                flow = tflow.tflow(resp=True)
+                flow.websocket = mws.WebSocketData()
+                ctx = sansio.context_for()
+                ctx.server.address = ("example.com", 80)
+                ctx.server.state = sansio.ConnectionState.OPEN
+                ctx.server.timestamp_start = 2.0
+                lay = W.WebsocketLayer(ctx, flow)
+                d = sansio.Driver(lay)
+                d.start()
+                cpeer, speer = Peer(ConnectionType.CLIENT, None), Peer(ConnectionType.SERVER, None)
+                src_peer, src_conn, dst_peer = (cpeer, ctx.client, speer) if from_client else (speer, ctx.server, cpeer)
+                mk_ev = WE.TextMessage if kind == "t" else WE.BytesMessage
+                part1, inj, part2 = ("foo", "hi", "bar") if kind == "t" else (b"foo", b"hi", b"bar")
+                d.data(src_conn, src_peer.ws.send(mk_ev(data=part1, message_finished=False)))
+                content = inj.encode() if kind == "t" else inj
+                d.feed(W.WebSocketMessageInjected(flow, mws.WebSocketMessage(Opcode.TEXT if kind == "t" else Opcode.BINARY, from_client, content)))
+                d.data(src_conn, src_peer.ws.send(mk_ev(data=part2, message_finished=True)))
+                for conn, data in d.sent_chunks:
+                    (cpeer if conn is ctx.client else speer).feed(data)
+                b.case(("inject_midway", from_client, kind))
+                recorded = sorted(m.content for m in flow.websocket.messages)
+                whole = (part1 + part2).encode() if kind == "t" else part1 + part2
+                delivered = sorted(("".join(f).encode() if k_ == "t" else b"".join(f)) for k_, f in dst_peer.msgs)
+                inp = {"from_client": from_client, "type": kind, "frames": [str(part1), str(part2)], "injected_between": str(inj)}
+                if recorded != sorted([content, whole]) or delivered != sorted([content, whole]):
+                    b.fail("ws.injection_during_fragmented_message[KF-C28-2]", inp, f"recorded {recorded}, delivered {delivered}, expected {sorted([content, whole])}")
     finally:
         W.Fragmentizer.FRAGMENT_SIZE = orig_fs
     return b
